@@ -105,6 +105,17 @@ def run(repo, rep, tier):
             sev = 2 if fails else (1 if warns else 0)
             severity.setdefault((hkt, cat, cs), []).append((hs, sev))
             severity.setdefault((hkt, cat, 'ca', hs), []).append((cs, sev))
+    # CA key types outside the documented families (a FIDO or Ed448 CA, an unknown name): the certificate's CA type and size must still be recorded (the probe
+    # does not raise); which thresholds they get is not documented and not demanded
+    for (hkt, cert, hkind), cat in itertools.product([h for h in host_kinds if h[1]], ['sk-ssh-ed25519@openssh.com', 'ssh-ed448', 'unknown-ca-type']):
+        for hs, cs in ((256 if hkind == 'ecc' else 4096, 256), (256 if hkind == 'ecc' else 4096, 4096)):
+            ev_ = _hostkey_rating.probe(repo, consts, [(hkt, cert, hs, cat, cs)])
+            rep.evals()
+            ncases += 1
+            if ev_['crash']:
+                bad.append(((hkt, hs, cat, cs), 'the probe raises: ' + ev_['crash'], [], None, None))
+            elif (hkt, hs, cat, cs) not in ev_['records']:
+                bad.append(((hkt, hs, cat, cs), 'the CA type and size are not recorded: %s' % (ev_['records'],), [], None, None))
     rep.check('thresholds', 'size rating of host keys and CA keys over %d boundary cases: fail < 2048 <= warn < 3072 <= none (ECC 224/256), never both, CA rated only for certificates with a CA' % ncases, not bad, blk,
               'size rating differs from the documented thresholds, e.g. (type, size, CA type, CA size)=%s gives fails=%s warns=%s, expected %s failure(s) and warnings %s' % (bad[0] if bad else (None,) * 5),
               sample={'rule': 'thresholds', 'cases': ncases, 'example': {'type': 'ssh-rsa', 'size': 2048, 'expected': 'warn'}})
